@@ -78,6 +78,22 @@ CHECKS = {
         "rule": "entry-points: the table of entry points x sizes 0..4 x positions (exhaustive). self-operands: 15 operations x sizes 0..4 x slot/index x 3 operand views (exhaustive). non-trivial = size >= 1 and the write changed a value. distinct = distinct decoded cases.",
         "assumptions": [],
     },
+    "C07": {
+        "parts": [{"pkg": "agents", "test": "TestC07", "subs": ["leaf-pools", "composite-pools", "typed-composites"]}],
+        "technique": "exhaustive pairs and triples over boundary-value pools of every primitive type + rapid pools of related composite values; oracle = order axioms (reflexive, mirror, transitive), differential against a reference order where the property defines one, metamorphic rebuild/insertion-order/collator-reuse relations",
+        "level_text": "Leaf types: for bool, every signed and unsigned integer width, rune, float32/float64 (incl. +-0, +-Inf, NaN, subnormals, every exponent band), complex64/128 (signed zeros, equal-magnitude families, overflowing magnitudes) and strings (empty, prefixes, non-UTF-8) all pairs and all triples of a boundary pool are ranked under the typed collator: reflexive, mirror image, transitive, and equal to the natural order where one exists. Composite values: pools of 4-7 related values (derived from a common ancestor by copy, prefix, single-point mutation; Arrays, Lists, Sets, Stacks, Queues, Catalogs, Maps, []any, map[any]any, nil, nesting to depth 3) are ranked in all pairs and triples under Collator[any]: the axioms, the defined order (nil first, lexicographic with proper prefix first, maps by sorted keys then values) where the reference defines it, and independence from map insertion order, from which equal-content object is passed, and from earlier calls on the same collator. Typed composite collators ([]int, []string, [][]int, map[string]int, map[int][]int) are compared with a reference order exactly.",
+        "level_note": "Between values of different types the library orders by an internal type name; the property does not specify that order, so only the axioms are required there. NaN and distinct complex numbers have no natural order: axioms only. Under Collator[any] only the canonical dynamic types are mixed.",
+        "rule": "leaf-pools: one case = one element of one type's pool, checked against every pair and triple of that pool (exhaustive; pairs/triples counted in extra); non-trivial = at least two different ranks occurred. composite-pools / typed-composites: non-trivial = the pool produced at least one non-Equal rank. distinct = distinct decoded cases.",
+        "assumptions": [],
+    },
+    "C08": {
+        "parts": [{"pkg": "agents", "test": "TestC08", "subs": ["leaf-pools", "composite-pools", "typed-composites", "copies-and-mutants", "cyclic"]}],
+        "technique": "exhaustive pairs over leaf pools + rapid composite pools; oracle = agreement of CompareValues with RankValues and with reference structural equality, independently rebuilt copies, every single-point mutation, cyclic values must end in the documented depth-limit panic and leave collators usable",
+        "level_text": "On the universe of C07 (leaf pools exhaustively, composite and typed pools by rapid) CompareValues must be reflexive, symmetric, transitive, true exactly when RankValues is Equal, and equal to reference structural equality (sequences in order, maps regardless of insertion order, collections by kind and content). For every generated value an independently rebuilt copy (maps filled in the opposite order) must compare equal, and every single-point mutation (each leaf changed, each element removed, one added, each unequal neighbour pair swapped, each key renamed, the kind changed) must compare unequal and rank non-Equal. Self-containing collections (cycle length 1-3 through List, Array, Stack, Queue, Set, Catalog value, Map value, alone or among siblings, against themselves or a separately built copy) must end with the documented depth-limit panic; afterwards the same collator and a fresh one must compare and rank acyclic pairs exactly as before.",
+        "level_note": "Mutants that do not change the built value (adding to a Set what it already holds) are skipped. NaN is compared through the axioms only (Go == says NaN != NaN; the property requires reflexivity). Pointer-only cycles (an association that is its own value) are outside the quantifier.",
+        "rule": "copies-and-mutants: non-trivial = at least one structurally different mutant was checked on a value of depth >= 1 (mutants counted in extra). cyclic: every case. pools as in C07. distinct = distinct decoded cases.",
+        "assumptions": ["a hang is decided by the 60 s watchdog, a fatal stack overflow by the per-case journal"],
+    },
     "C09": {
         "parts": [{"pkg": "seq", "test": "TestC09", "subs": ["all-small-arrays", "random-arrays", "default-ranker"]}],
         "technique": "exhaustive enumeration of all arrays of length 0..7/0..9 over a 4-value alphabet x 7 rankers + rapid random arrays (shapes, power-of-two lengths); oracle = tagged-element permutation check and adjacent-pair order check; differential collection methods vs sorter",
